@@ -3,6 +3,7 @@ CONSTANTS
   K = 2
   MaxT = 3
   Types = {"f"}
+  Lvls = {1}
   EmitMode = "cfg"
 INVARIANTS TypeOK OutSorted OutPrefix Complete FromInput SingleType WithinGroup Collapsed
 ACTION_CONSTRAINT Emit
